@@ -15,9 +15,14 @@ Definition name := string.
 
 Inductive ctr := CModule | CBundle.
 
+(* hdl21.signal.PortDir: the `direction` field of a Signal.  It is DATA of the signal (what the exported port says); it
+   is independent of `vis`: h.Port() is port-visible with direction NONE, h.Signal(direction=PortDir.INPUT) or an
+   h.Input() whose `vis` was set to INTERNAL is an internal signal that carries a direction. *)
+Inductive pdir := DNone | DInput | DOutput | DInout.
+
 (* the kinds of Python values an edit can carry *)
 Inductive vkind :=
-| KSignal (port : bool)      (* hdl21.Signal; port = (vis == Visibility.PORT) *)
+| KSignal (port : bool) (dir : pdir)   (* hdl21.Signal; port = (vis == Visibility.PORT), dir = direction *)
 | KInstance | KInstArray | KInstBundle | KBundleInst
 | KStr                       (* a str or None: only meaningful for `name` *)
 | KOther.                    (* int, function, Module, Generator, Bundle definition, ... *)
@@ -30,13 +35,13 @@ Record value := V { v_id : Z; v_kind : vkind; v_name : option name }.
 (* which view lists an object of a given kind (None: not storable in this container) *)
 Definition view_of (c : ctr) (k : vkind) : option view :=
   match c, k with
-  | CModule, KSignal true => Some VPorts
-  | CModule, KSignal false => Some VSignals
+  | CModule, KSignal true _ => Some VPorts       (* module.py:_add looks at `val.vis` only, never at `val.direction` *)
+  | CModule, KSignal false _ => Some VSignals
   | CModule, KInstance => Some VInstances
   | CModule, KInstArray => Some VInstArrays
   | CModule, KInstBundle => Some VInstBundles
   | CModule, KBundleInst => Some VBundles
-  | CBundle, KSignal _ => Some VSignals
+  | CBundle, KSignal _ _ => Some VSignals
   | CBundle, KBundleInst => Some VBundles
   | _, _ => None
   end.
